@@ -61,7 +61,7 @@ Section Plain.
     { intros B' x H1 H2 k'. unfold upd. destruct (bytes_eqb k' (tokey (op_key o))) eqn:E.
       - apply bytes_eqb_eq in E. now subst.
       - rewrite H1, G; auto. intros ->. rewrite beqb_refl in E. discriminate. }
-    destruct o as [k vs|k vs|k v|k|k|k|k|k|k v|k]; try (now elim P); cbn [op_key] in *; cbn [step_plain spec_plain].
+    destruct o as [k vs|k vs|k v|k|k|k|k|k|k v|k|k e]; try (now elim P); cbn [op_key] in *; cbn [step_plain spec_plain].
     - (* put *) destruct vs as [|v vs]; [now elim P|]. rewrite Bk. rewrite <- G.
       destruct HB as [HB|(v0 & B' & -> & HB)].
       + rewrite db_put_mid, db_get_absent by assumption. cbn [fst snd]. split; [reflexivity|]. split.
@@ -125,7 +125,7 @@ Section RenameP.
     pose proof (H _ Tk) as Hk1.
     assert (Upd : forall X t, T t -> upd e1 s1 (key o) X t = upd e2 s2 (f (key o)) X (f t)).
     { intros X t Tt. unfold upd. rewrite f_inj by assumption. destruct (e1 t (key o)); auto. }
-    destruct o as [k vs|k vs|k v|k|k|k|k|k|k v|k]; cbn [spec_plain]; try (f_equal; now apply IH).
+    destruct o as [k vs|k vs|k v|k|k|k|k|k|k v|k|k e]; cbn [spec_plain]; try (f_equal; now apply IH).
     - destruct vs as [|v vs]; [f_equal; now apply IH|]. rewrite <- Hk1.
       destruct (s1 (key (OPut k (v :: vs)))); f_equal; apply IH; auto.
     - destruct vs as [|v vs]; f_equal; apply IH; auto.
